@@ -14,6 +14,7 @@ size_t nondet_size(void);
 
 #include "db_impl.c"
 #include "contracts/dbgc.h"
+#include "contracts/dbbg.h"      /* c_background_compaction, g_needs_compaction */
 
 /* ------------------------------------------------------------------ ghost */
 unsigned long g_clock;
@@ -31,7 +32,6 @@ unsigned long g_t_build, g_t_apply, g_t_gc, g_t_immnull;
 unsigned g_broadcasts; int g_bgerr0;
 ldb_memtable_t g_imm_obj; ldb_version_t g_base_obj; ldb_iter_t g_iter_obj;
 int g_sched_calls;
-int g_needs_compaction;
 int g_mode_recover; ldb_memtable_t g_rmem_obj; unsigned g_rmem_unrefs; unsigned g_flushes;
 
 /* ---------------------------------------------------------- thread model */
@@ -267,29 +267,25 @@ void h_recoverlog(void) {
  * state change a foreground thread may be waiting for (imm flushed, error
  * latched, compaction finished, manual compaction done) is followed by a
  * broadcast before the mutex is released, and pending work is rescheduled. */
-unsigned g_bgc_calls; unsigned long g_t_bgc, g_t_bcast, g_t_unlock_last;
-void c_background_compaction(ldb_t *db)
-__CPROVER_requires(db == g_db && g_held)
-/* caller obligation (E3): no compaction work after a latched error or once shutdown has begun */
-__CPROVER_requires(db->bg_error == LDB_OK && *(int *)&db->shutting_down == 0)
-__CPROVER_assigns(db->imm, db->has_imm, db->bg_error, db->manual_compaction, g_bgc_calls, g_needs_compaction, g_copied_pending, g_added_versions)
-__CPROVER_ensures(g_bgc_calls == __CPROVER_old(g_bgc_calls) + 1)
-;
-
+unsigned long g_t_bgc, g_t_bcast, g_t_unlock_last;
+static ldb_manual_t g_manual_obj;
 void h_bgcall(void) {
   ldb_t *db = setup_db();
-  int shut, err0, sched;
+  int shut, err0, sched; ldb_memtable_t *imm0; void *man0;
   unsigned b0;
-  g_held = 0; g_locks = 0; g_unlocks = 0; g_bgc_calls = 0;
+  g_held = 0; g_locks = 0; g_unlocks = 0;
+  db->manual_compaction = nondet_int() ? &g_manual_obj : NULL;
   __CPROVER_assume(db->background_compaction_scheduled == 1);   /* the pool runs us because we were scheduled */
   __CPROVER_assume(g_needs_compaction == 0 || g_needs_compaction == 1);
-  shut = *(int *)&db->shutting_down != 0; err0 = db->bg_error;
+  shut = *(int *)&db->shutting_down != 0; err0 = db->bg_error; imm0 = db->imm; man0 = db->manual_compaction;
   b0 = g_broadcasts;
 
   ldb_background_call(db);
 
-  CHECK(!g_held && g_locks == 1 && g_unlocks == 1, "background call: takes and releases the mutex exactly once");
-  CHECK(g_bgc_calls == ((!shut && err0 == LDB_OK) ? 1u : 0u), "E3: compaction work runs only without a latched error and not during shutdown");
+  CHECK(!g_held && g_locks == g_unlocks, "background call: the mutex it takes is released again");
+  /* E3 "compaction work runs only without a latched error and not during shutdown" is the PRECONDITION of c_background_compaction, checked at the call */
+  CHECK(!(!shut && err0 == LDB_OK && imm0 == NULL && man0 != NULL) || db->manual_compaction == NULL, "without a latched error and outside shutdown the work does run (witness: a pending manual request is consumed)");
+  CHECK(!(shut || err0 != LDB_OK) || (db->manual_compaction == man0 && db->imm == imm0), "after a latched error / during shutdown nothing is compacted");
   CHECK(g_broadcasts >= b0 + 1, "W2: the background call always ends with a broadcast (waiters re-check imm / bg_error / level-0 count)");
   sched = db->background_compaction_scheduled;
   CHECK(sched == 0 || sched == 1, "scheduled flag is boolean");
